@@ -98,7 +98,7 @@ def virt_tree(home):
 def run_case(case):
     rng = random.Random(case["seed"] * 7919 + 59)
     net = scenario.random_net(rng, allow_small_pipe=False)
-    net["latency"] = [0.0, 0.001]
+    net["latency"] = [0.0005, 0.001]
     base, home = case["base"], case["home"]
     base2 = case.get("base2", "/srv/v")
     if real_of(base, "/") == "/":
